@@ -969,15 +969,33 @@ func c10(r *core.Run) {
 		wantCircle := core.ParsePoly("idiv(idiv(d, I) - mod(p - tp + N - 1, N) - 1, N)")
 		wantDiff := core.ParsePoly("mod(idiv(d, I) - mod(p - tp + N - 1, N) - 1, N)")
 		n := 0
+		// out of scope: the circle/diff a freshly built replacement entry starts with (D4/K8/replacement-starts-unscheduled);
+		// equivalent spelling: the constant 0 stored where steps − ahead == 0 is established (0/N = 0 mod N = 0)
+		restZero := c10EqPoly(a, core.ParsePoly("idiv(d, I) - mod(p - tp + N - 1, N) - 1"))
+		zeroAtRestZero := func(st *ssa.Store) bool {
+			return core.Describe(st.Val) == "const:0" && core.EdgeCount(h, restZero) > 0 && core.Requires(h, core.Is(st), restZero) == nil
+		}
 		for _, st := range core.StoresToField(h, "timingEntry.circle") {
+			if freshRoot(st.Addr) {
+				continue
+			}
 			n++
+			if zeroAtRestZero(st) {
+				continue
+			}
 			if got := a.Norm(st.Val); !got.Equal(wantCircle) {
 				o.Fail(p.InstrPos(st), "the move handler stores circle = %s, expected %s (steps = d/I as in the placement function, ahead = ticks until the entry's slot is scanned next)", got, wantCircle)
 			}
 		}
 		m := 0
 		for _, st := range core.StoresToField(h, "timingEntry.diff") {
+			if freshRoot(st.Addr) {
+				continue
+			}
 			m++
+			if zeroAtRestZero(st) {
+				continue
+			}
 			if got := a.Norm(st.Val); !got.Equal(wantDiff) {
 				o.Fail(p.InstrPos(st), "the move handler stores diff = %s, expected %s", got, wantDiff)
 			}
